@@ -86,6 +86,28 @@ package core
 //@     invariant[flush.count@C01] c.wcount == gw(c) + gn(c)
 //@     invariant[flush.order@C01] forall i int :: 0 <= i && i < gn(c) ==> c.wlog[gw(c) + i] == atlabel(G, mqm(cl(c), i).RspBody)
 
+// eventloop.msgTimeout (C16): every expired, not yet answered fragment fails its whole request with the timeout
+// error, once: fragments that are already done when they reach the front of the tree are only removed.
+//@ func conn.AsyncWrite
+//@   flags trusted pure
+
+//@ func eventloop.msgTimeout
+//@   props C16
+//@   requires el.engine != nil && el.engine.opts != nil
+//@   label T at call getFromTimeoutQueue#0
+//@   assume at call deleteFromTimeoutQueue#1 :: forall k int32 :: has(frag.Peer.Body, k) ==> frag.Peer.Body[k] != nil
+//@   assert[once@C16] at call conn.AsyncWrite#0 :: forall f *Frag :: f == frag ==> !atlabel(T, f.Done)
+//@   assert[removed@C16] at call conn.AsyncWrite#0 :: !frag.intree
+//@   assert[frags.done@C16] at call conn.AsyncWrite#0 :: forall k int32 :: has(msg.Body, k) ==> msg.Body[k].Done
+//@   assert[completed@C16] at call conn.AsyncWrite#0 :: msg.Done
+//@   loop 0
+//@     invariant el.engine != nil && el.engine.opts != nil
+//@   loop 1
+//@     modifies Frag.Error, Frag.Done
+//@     invariant frag != nil && msg != nil && msg == frag.Peer && !frag.intree
+//@     invariant forall k int32 :: has(msg.Body, k) ==> msg.Body[k] != nil
+//@     invariant forall k int32 :: visited(k) ==> msg.Body[k].Done
+
 // eventloop.cread: one client request at a time. A request the handler answers itself (PING, AUTH, QUIT, rejected
 // commands) is recycled and its reply written at once; that is in pipeline order only if no earlier request of the
 // client is still waiting (clause order).
